@@ -11,3 +11,16 @@ func (app *BaseApp) VerifCheckMultiStore() store.MultiStore {
 	}
 	return app.checkState.ms
 }
+
+// VerifPushCheck stacks a fresh cache-wrapped multistore on top of the CheckTx (mempool) state and returns a function
+// that discards everything written since — the CheckTx twin of VerifPushDeliver (hooks/chainx), so that a harness can
+// snapshot/roll back both states between transactions; the txs themselves run through the unmodified CheckTx path.
+func (app *BaseApp) VerifPushCheck() (pop func()) {
+	old := app.checkState
+	if old == nil {
+		panic("VerifPushCheck without a check state")
+	}
+	ms := old.ms.MultiCacheWrap()
+	app.checkState = &state{ms: ms, ctx: old.ctx.WithMultiStore(ms)}
+	return func() { app.checkState = old }
+}
